@@ -233,4 +233,117 @@ theorem guards (size : Int) :
     (ModifyFloat1AttributeParallelWithPoolSize.panics size ↔ size < 1) ∧ (ModifyFloat1AttributeParallelWithPoolSize.delegates size ↔ size = 1) := by
   refine ⟨?_, ?_, ?_, ?_, ?_, ?_, ?_, ?_, ?_, ?_, ?_, ?_, ?_, ?_⟩ <;> exact Iff.rfl
 
+
+/-! ## Part 2 — every schedule
+
+`Interleaving logs s` (Model/Par.lean): `s` is any merge of the workers' event logs that keeps each worker's own order.
+`run m s`: the memory after performing the stores `s` on memory `m` (cells indexed by Go `int`).
+`seqEvents g n = [(0, g 0), …, (n-1, g (n-1))]`: the events of the sequential loop `for i, v := range data`. -/
+
+/-- **interleaving_irrelevant** — for logs whose stores hit pairwise different cells, EVERY interleaving leaves the same memory,
+    namely the one obtained by running the workers one after the other -/
+theorem interleaving_irrelevant {α : Type} (logs : List (List (Int × α))) (hd : (logs.flatten.map Prod.fst).Nodup)
+    (m : Int → α) (s : List (Int × α)) (hs : Interleaving logs s) : run m s = run m logs.flatten :=
+  interleaving_irrelevant_gen logs hd m s hs
+
+example : Interleaving [[((0 : Int), 'a'), (1, 'b')], [(2, 'c')]] [(0, 'a'), (2, 'c'), (1, 'b')] :=
+  .step 0 _ [(1, 'b')] rfl (.step 1 _ [] rfl (.step 0 _ [] rfl (.done (by simp))))
+example : run (fun _ => 'z') [((0 : Int), 'a'), (2, 'c'), (1, 'b')] 1 = 'b' := by decide
+
+/-- any two schedules of the same disjoint logs agree -/
+theorem interleaving_irrelevant_pair {α : Type} (logs : List (List (Int × α))) (hd : (logs.flatten.map Prod.fst).Nodup)
+    (m : Int → α) (s t : List (Int × α)) (hs : Interleaving logs s) (ht : Interleaving logs t) : run m s = run m t := by
+  rw [interleaving_irrelevant logs hd m s hs, interleaving_irrelevant logs hd m t ht]
+
+/-- the set of schedules is not empty: running the workers one after the other is one -/
+theorem sequential_schedule_is_interleaving {β : Type} (logs : List (List β)) : Interleaving logs logs.flatten :=
+  Interleaving.flatten logs
+
+/-- `Mesh.ModifyFloat3AttributeParallelWithPoolSize` = `Mesh.ModifyFloat3Attribute` on every schedule: whatever the interleaving `s` of the
+    workers' stores `modified[j] = f(j, oldData[j])`, the array ends as after the sequential loop — cell `k < n` holds
+    `f k (data k)`, no other cell is written.  For all `n`, all pool sizes ≥ 1, all callbacks `f` (as functions). -/
+theorem modify_parallel_eq_sequential_ModifyFloat3 {α : Type} (f : Int → α → α) (data : Int → α) (n size : Nat) (hs : 1 ≤ size)
+    (w : Int → Int) (hw : ModifyFloat3AttributeParallelWithPoolSize.spec.writeIndex = some w)
+    (m : Int → α) (s : List (Int × α)) (hsched : Interleaving (ModifyFloat3AttributeParallelWithPoolSize.spec.storeLogs w f data n size) s) :
+    run m s = run m (seqEvents (fun k => f k (data k)) n) ∧
+    ∀ k : Int, run m s k = if 0 ≤ k ∧ k < n then f k (data k) else m k := by
+  have hwi : ∀ j, w j = j := by
+    have : w = fun i => i := (Option.some.inj hw).symm
+    intro j; rw [this]
+  have h1 := modify_any_schedule std_ModifyFloat3 (fun _ => rfl) w hwi f data n size hs m s hsched
+  exact ⟨h1, fun k => by rw [h1, run_seqEvents]⟩
+example : ∃ w, ModifyFloat3AttributeParallelWithPoolSize.spec.writeIndex = some w := ⟨_, rfl⟩
+
+/-- `Mesh.ModifyFloat2AttributeParallelWithPoolSize` = `Mesh.ModifyFloat2Attribute` on every schedule: whatever the interleaving `s` of the
+    workers' stores `modified[j] = f(j, oldData[j])`, the array ends as after the sequential loop — cell `k < n` holds
+    `f k (data k)`, no other cell is written.  For all `n`, all pool sizes ≥ 1, all callbacks `f` (as functions). -/
+theorem modify_parallel_eq_sequential_ModifyFloat2 {α : Type} (f : Int → α → α) (data : Int → α) (n size : Nat) (hs : 1 ≤ size)
+    (w : Int → Int) (hw : ModifyFloat2AttributeParallelWithPoolSize.spec.writeIndex = some w)
+    (m : Int → α) (s : List (Int × α)) (hsched : Interleaving (ModifyFloat2AttributeParallelWithPoolSize.spec.storeLogs w f data n size) s) :
+    run m s = run m (seqEvents (fun k => f k (data k)) n) ∧
+    ∀ k : Int, run m s k = if 0 ≤ k ∧ k < n then f k (data k) else m k := by
+  have hwi : ∀ j, w j = j := by
+    have : w = fun i => i := (Option.some.inj hw).symm
+    intro j; rw [this]
+  have h1 := modify_any_schedule std_ModifyFloat2 (fun _ => rfl) w hwi f data n size hs m s hsched
+  exact ⟨h1, fun k => by rw [h1, run_seqEvents]⟩
+example : ∃ w, ModifyFloat2AttributeParallelWithPoolSize.spec.writeIndex = some w := ⟨_, rfl⟩
+
+/-- `Mesh.ModifyFloat1AttributeParallelWithPoolSize` = `Mesh.ModifyFloat1Attribute` on every schedule: whatever the interleaving `s` of the
+    workers' stores `modified[j] = f(j, oldData[j])`, the array ends as after the sequential loop — cell `k < n` holds
+    `f k (data k)`, no other cell is written.  For all `n`, all pool sizes ≥ 1, all callbacks `f` (as functions). -/
+theorem modify_parallel_eq_sequential_ModifyFloat1 {α : Type} (f : Int → α → α) (data : Int → α) (n size : Nat) (hs : 1 ≤ size)
+    (w : Int → Int) (hw : ModifyFloat1AttributeParallelWithPoolSize.spec.writeIndex = some w)
+    (m : Int → α) (s : List (Int × α)) (hsched : Interleaving (ModifyFloat1AttributeParallelWithPoolSize.spec.storeLogs w f data n size) s) :
+    run m s = run m (seqEvents (fun k => f k (data k)) n) ∧
+    ∀ k : Int, run m s k = if 0 ≤ k ∧ k < n then f k (data k) else m k := by
+  have hwi : ∀ j, w j = j := by
+    have : w = fun i => i := (Option.some.inj hw).symm
+    intro j; rw [this]
+  have h1 := modify_any_schedule std_ModifyFloat1 (fun _ => rfl) w hwi f data n size hs m s hsched
+  exact ⟨h1, fun k => by rw [h1, run_seqEvents]⟩
+example : ∃ w, ModifyFloat1AttributeParallelWithPoolSize.spec.writeIndex = some w := ⟨_, rfl⟩
+
+/-- **scan_multiset** for `ScanFloat3AttributeParallelWithPoolSize.spec`: on every schedule the callback receives exactly the (index, value) pairs of the
+    sequential scan, each once (a permutation of `[(0, data 0), …, (n-1, data (n-1))]`) -/
+theorem scan_multiset_ScanFloat3 {α : Type} (data : Int → α) (n size : Nat) (hs : 1 ≤ size)
+    (s : List (Int × α)) (hsched : Interleaving (ScanFloat3AttributeParallelWithPoolSize.spec.callLogs data n size) s) :
+    s.Perm (seqEvents data n) :=
+  scan_any_schedule std_ScanFloat3 (fun _ => rfl) data n size hs s hsched
+
+/-- **scan_multiset** for `ScanFloat2AttributeParallelWithPoolSize.spec`: on every schedule the callback receives exactly the (index, value) pairs of the
+    sequential scan, each once (a permutation of `[(0, data 0), …, (n-1, data (n-1))]`) -/
+theorem scan_multiset_ScanFloat2 {α : Type} (data : Int → α) (n size : Nat) (hs : 1 ≤ size)
+    (s : List (Int × α)) (hsched : Interleaving (ScanFloat2AttributeParallelWithPoolSize.spec.callLogs data n size) s) :
+    s.Perm (seqEvents data n) :=
+  scan_any_schedule std_ScanFloat2 (fun _ => rfl) data n size hs s hsched
+
+/-- **scan_multiset** for `ScanFloat1AttributeParallelWithPoolSize.spec`: on every schedule the callback receives exactly the (index, value) pairs of the
+    sequential scan, each once (a permutation of `[(0, data 0), …, (n-1, data (n-1))]`) -/
+theorem scan_multiset_ScanFloat1 {α : Type} (data : Int → α) (n size : Nat) (hs : 1 ≤ size)
+    (s : List (Int × α)) (hsched : Interleaving (ScanFloat1AttributeParallelWithPoolSize.spec.callLogs data n size) s) :
+    s.Perm (seqEvents data n) :=
+  scan_any_schedule std_ScanFloat1 (fun _ => rfl) data n size hs s hsched
+
+/-- **scan_multiset** for `ScanPrimitivesParallelWithPoolSize.spec_TriangleTopology`: on every schedule the callback receives exactly the (index, value) pairs of the
+    sequential scan, each once (a permutation of `[(0, data 0), …, (n-1, data (n-1))]`) -/
+theorem scan_multiset_ScanPrimitives_Triangle {α : Type} (data : Int → α) (n size : Nat) (hs : 1 ≤ size)
+    (s : List (Int × α)) (hsched : Interleaving (ScanPrimitivesParallelWithPoolSize.spec_TriangleTopology.callLogs data n size) s) :
+    s.Perm (seqEvents data n) :=
+  scan_any_schedule std_ScanPrimitives_Triangle (fun _ => rfl) data n size hs s hsched
+
+/-- **scan_multiset** for `ScanPrimitivesParallelWithPoolSize.spec_PointTopology`: on every schedule the callback receives exactly the (index, value) pairs of the
+    sequential scan, each once (a permutation of `[(0, data 0), …, (n-1, data (n-1))]`) -/
+theorem scan_multiset_ScanPrimitives_Point {α : Type} (data : Int → α) (n size : Nat) (hs : 1 ≤ size)
+    (s : List (Int × α)) (hsched : Interleaving (ScanPrimitivesParallelWithPoolSize.spec_PointTopology.callLogs data n size) s) :
+    s.Perm (seqEvents data n) :=
+  scan_any_schedule std_ScanPrimitives_Point (fun _ => rfl) data n size hs s hsched
+
+/-- **scan_multiset** for `ScanPrimitivesParallelWithPoolSize.spec_LineStripTopology`: on every schedule the callback receives exactly the (index, value) pairs of the
+    sequential scan, each once (a permutation of `[(0, data 0), …, (n-1, data (n-1))]`) -/
+theorem scan_multiset_ScanPrimitives_LineStrip {α : Type} (data : Int → α) (n size : Nat) (hs : 1 ≤ size)
+    (s : List (Int × α)) (hsched : Interleaving (ScanPrimitivesParallelWithPoolSize.spec_LineStripTopology.callLogs data n size) s) :
+    s.Perm (seqEvents data n) :=
+  scan_any_schedule std_ScanPrimitives_LineStrip (fun _ => rfl) data n size hs s hsched
+
 end PolyVerif.C10
